@@ -85,7 +85,7 @@ pub fn check_c14(ctx: &mut Ctx, cfg: &Cfg, how: How) {
     }
     let mut facts: Vec<Fact> = vec![];
     for m in members {
-        let mh = How { owned: how.owned, wrap: how.wrap && !m.is_compound(), probe: how.probe };
+        let mh = how;
         match with_writer(m, mh, |w| calc(w)) {
             WOut::Err(e) => facts.push(Fact { err: Some(e), image: vec![], lens: vec![], padded: false }),
             WOut::Ok(_) => match member_iteration(m, mh) {
@@ -523,7 +523,12 @@ fn build_with_history(cfg: &Cfg, h: u64) -> (WOut, Option<Vec<u8>>) {
                 b = b.reason("junk reason that must be overwritten");
             }
             if owned {
-                let mut o: ByeBuilder<'static> = b.reason_owned(reason.as_str());
+                // (sometimes twice: owned junk first, then the real reason)
+                let mut o: ByeBuilder<'static> = if junk && !canonical && s.chance(1, 2) {
+                    b.reason_owned("an owned junk reason that must be overwritten").reason_owned(reason.as_str())
+                } else {
+                    b.reason_owned(reason.as_str())
+                };
                 while i < n {
                     if i == p_at && !pad_done {
                         o = o.padding(*padding);
@@ -669,9 +674,14 @@ fn build_with_history(cfg: &Cfg, h: u64) -> (WOut, Option<Vec<u8>>) {
                     drive::FciB::Fir(drive::mk_fir(&v))
                 }
                 Fci::Rpsi { pt, bits, overrun } => {
-                    let route = if canonical { 0 } else { s.below(5) };
+                    let route = if canonical { 0 } else { s.below(9) };
                     let r = Rpsi::builder();
                     drive::FciB::Rpsi(match route {
+                        // a repeated setter keeps the last value, for every ordered pair of the setter's variants
+                        5 => r.payload_type(*pt).native_data_owned(junk_bits.to_vec(), 1).native_data_owned(&bits[..], *overrun),
+                        6 => r.native_data_owned(junk_bits.to_vec(), 1).native_data(&bits[..], *overrun).payload_type(*pt),
+                        7 => r.payload_type(*pt).native_data(&junk_bits[..], 1).native_data_owned(bits.clone(), *overrun),
+                        8 => r.native_data_owned(&junk_bits[..], 1).payload_type(*pt).native_data_owned(bits.clone(), *overrun),
                         0 => r.payload_type(*pt).native_data(&bits[..], *overrun),
                         1 => r.native_data(&bits[..], *overrun).payload_type(*pt),
                         // owned AFTER payload_type: must keep the payload type
